@@ -1,5 +1,6 @@
 import Drand.Beacon.Sync
 import Drand.Driver.Store
+import Gen.Consts
 namespace Drand.Driver
 open Drand Drand.Store Drand.Chain Drand.Beacon.Sync
 
@@ -48,6 +49,8 @@ structure SyncSt where
   fr : Bool := false
   labels : Labels := {}
   nmax : Nat := 0
+  run : RunState := ⟨0, true⟩
+  runPeriod : Nat := 1
   node : Node := ⟨Stack.init true seedSym, [], []⟩
 
 def SyncSt.trimPrev (s : SyncSt) : Bool := s.backend == .trimmed && s.chained && s.mode == .participant
@@ -196,6 +199,12 @@ def syncStep (s : SyncSt) (f : List String) : SyncSt × String :=
     let rs := (List.range ((upTo.toNat?.getD 0) + 1)).filterMap fun r =>
       (viewGet s s.node.st.base r).map fun b => s!"{b.round}:{toHex b.sig}:{toHex b.prev}"
     (s, s!"len={s.node.st.base.length} " ++ joinOr "," rs)
+  | ["runinit", period] => ({ s with run := ⟨0, true⟩, runPeriod := period.toNat?.getD 1 }, s!"ok factor={Gen.syncExpiryFactor}")
+  | ["req", now, last, upTo] =>
+    let r := admitReq Gen.syncExpiryFactor s.runPeriod (now.toInt?.getD 0) s.run (last.toNat?.getD 0) (upTo.toNat?.getD 0)
+    ({ s with run := r.1 }, match r.2 with | .filled => "filled" | .start => "start" | .ignore => "ignore")
+  | ["ended"] => ({ s with run := s.run.finished }, "ok")
+  | ["beacon", now] => ({ s with run := s.run.beacon (now.toInt?.getD 0) }, "ok")
   | ["admission", factor, period, now, lrt, alive, last, upTo] =>
     let rs : RunState := ⟨lrt.toInt?.getD 0, flag alive⟩
     let r := admitReq (factor.toNat?.getD 0) (period.toNat?.getD 0) (now.toInt?.getD 0) rs (last.toNat?.getD 0) (upTo.toNat?.getD 0)
